@@ -222,7 +222,7 @@ def main(pid, tier, chk):
         # dry runs: syscall shape of every workload (twice: the shape must be stable, else crash points do not replay)
         futs = {w: (pool.submit(execute_case, child, workdir, Case(w, [workloads[w]], [None])),
                     pool.submit(execute_case, child, workdir, Case(w, [workloads[w]], [None]))) for w in range(n_workloads)}
-        viol, harness_err = [], []
+        viol, harness_err, unstable = [], [], []
         total_points = 0
         for w, (f1, f2) in futs.items():
             r1, r2 = f1.result(), f2.result()
@@ -230,7 +230,8 @@ def main(pid, tier, chk):
                 (harness_err if r1.get("harness") else viol).append(("dry run of workload %d" % w, r1["violations"], Case(w, [workloads[w]], [None])))
                 continue
             if r1["shape"] != r2["shape"]:
-                harness_err.append(("workload %d: syscall shape differs between two fault-free runs" % w, [], None))
+                # crash points of this workload would not replay: leave it out (reported in the evidence)
+                unstable.append(w)
                 continue
             dry[w] = r1["counts"]
             for s in SYSCALLS:
@@ -291,6 +292,7 @@ def main(pid, tier, chk):
                 "evaluations": landed, "distinct_nontrivial": len(distinct),
                 "rule": meta["rule"], "samples": samples or [{"note": "no sample"}],
                 "workloads": n_workloads, "workloads_with_every_crash_point_enumerated": len(dry),
+                "workloads_skipped_because_their_syscall_sequence_was_not_stable": len(unstable),
                 "crash_points_enumerated": kill_cases, "disk_error_cases": err_samples, "chained_generation_cases": chain_samples,
                 "cases_where_the_fault_landed": landed, "faults_fired": fired,
                 "syscalls_per_workload": {str(w): dry[w] for w in sorted(dry)[:5]},
@@ -322,8 +324,8 @@ def main(pid, tier, chk):
             for what, vs, _ in harness_err[:3]:
                 print("check: harness trouble: %s %s" % (what, vs), file=sys.stderr)
             return 2
-        if landed == 0:
-            chk.die("no injected fault landed")
+        if landed == 0 or len(unstable) > n_workloads // 2:
+            chk.die("no injected fault landed, or most workloads have an unstable system-call sequence (%d of %d)" % (len(unstable), n_workloads))
         print("check: %s held on %d fault runs (%d workloads, every one of %d file-system calls used as a kill point, %d disk-error and %d chained cases; %.1fs)" % (
             pid, landed, len(dry), kill_cases, err_samples, chain_samples, wall))
         return 0
